@@ -239,6 +239,53 @@ def run(rep, tier, seed):
         rep.compared += 1
         if r != got and len(rep.broken) < 5:
             rep.broken.append('correspondence C04/interrupted: table %r text %r model %r implementation %r' % (T, text, r, got))
+    # a name that is the beginning of a name declared before it (another license, an earlier alias of the same license, the
+    # multi-word key of an earlier license): the order of declaration does not matter
+    npre = 300 if tier == 'thorough' else 80
+    reqs5, metas5 = [], []
+    for _ in range(npre):
+        w = rng.sample(wpool, 5)
+        long_ws = w[0:rng.randint(3, 4)]
+        short_ws = long_ws[:rng.randint(1, len(long_ws) - 1)]
+        long_name, short_name = ' '.join(long_ws), ' '.join(short_ws)
+        shape = rng.randrange(4)
+        if shape == 0:      # two licenses, the longer alias first
+            T = [('K-LONG', [long_name], False), ('K-SHORT', [short_name], False)]
+            owner = {long_name: 'K-LONG', short_name: 'K-SHORT'}
+        elif shape == 1:    # the same, shorter first (the control)
+            T = [('K-SHORT', [short_name], False), ('K-LONG', [long_name], False)]
+            owner = {long_name: 'K-LONG', short_name: 'K-SHORT'}
+        elif shape == 2:    # two aliases of one license, the longer first
+            T = [('K-ONE', [long_name, short_name], False), ('other', [], False)]
+            owner = {long_name: 'K-ONE', short_name: 'K-ONE'}
+        else:               # an alias that begins the multi-word key of an earlier license
+            T = [(long_name.upper(), [], False), ('K-SHORT', [short_name], False)]
+            owner = {long_name: long_name.upper(), short_name: 'K-SHORT'}
+        if not gen.table_ok(T):
+            continue
+        for nm in (short_name, long_name):
+            X = [0, [0, [enc_str(owner[nm]), 0]]]
+            Z = [0, [0, [enc_str('zz'), 0]]]
+            for tmpl, exp in (('%s', X), ('zz or %s', [2, [Z, X]]), ('%s and zz', [1, [X, Z]]), ('(%s)', X)):
+                text = tmpl % gen.vary_name(rng, nm)
+                if ''.join(ch.lower() for ch in text) != text.lower():
+                    continue
+                reqs5.append((4, [enc_table(T), 0, 0, 0, enc_str(text)]))
+                metas5.append((T, text, exp))
+    res5 = run_model(reqs5)
+    for (T, text, exp), r in zip(metas5, res5):
+        L = make_licensing(T)
+        rep.trail.append({'table': T, 'text': text, 'expected': None})
+        got = parsing.parse_outcome(L, text)
+        rep.case((repr(T), text), nontrivial=True, sample={'table': T, 'text': text, 'expected': str(build_expr(exp))} if len(rep.samples) < 40 else None)
+        rep.count('prefix_names_in_both_orders')
+        if got != [0, [exp]]:
+            rep.violations.append({'key': 'recognise', 'kind': 'text', 'table': T, 'text': text, 'expected': exp, '_at': len(rep.trail) - 1,
+                                   'what': 'a name that begins another name of the table is not resolved to its license: %r' % (got,)})
+            continue
+        rep.compared += 1
+        if r != got and len(rep.broken) < 5:
+            rep.broken.append('correspondence C04/prefix: table %r text %r model %r implementation %r' % (T, text, r, got))
     # operator words inside longer words are not operators; longest wins, leftmost on a tie
     probes = [
         ([('mit', [], False)], 'orgpl and android', [1, [[0, [0, [enc_str('orgpl'), 0]]], [0, [0, [enc_str('android'), 0]]]]]),
